@@ -15,6 +15,9 @@ def main():
     argv = sys.argv[1:]
     if os.environ.get('VERIF_CHILD') != '1':
         return envsetup.run_in_child(['-m', 'simkit.selftest'] + argv, wall_cap_s=3600)
+    if argv[0] == 'cmutants':
+        from sims.solverfaults import cmutants
+        return cmutants.main(argv[1:])
     mode, prop = argv[0], argv[1]
     runs = int(argv[2]) if len(argv) > 2 else 400
     from .cli import make_engine, ENGINES
